@@ -419,6 +419,26 @@ func spec_itoa(n int) string { return strconv.Itoa(n) }
 //@   requires c != nil
 //@   ensures result == (c.body == nil || len(spec_written(c.body)) == 0)
 
+//@ func Register
+//@   props C05 C04
+//@   requires g != nil && registeredGenerators != nil
+//@   assigns registeredGenerators
+//@   ensures has(registeredGenerators, g.Name()) && registeredGenerators[g.Name()] == g
+//@   ensures forall n string :: n != g.Name() ==> has(registeredGenerators, n) == old(has(registeredGenerators, n)) && registeredGenerators[n] == old(registeredGenerators[n])
+//@   note registration binds the generator's name to the prototype and touches no other entry
+
+//@ func GetRegisteredGenerators
+//@   props C04 C05
+//@   requires registeredGenerators != nil
+//@   assigns nothing
+//@   ensures len(names) > 0 ==> forall g Generator :: elem(g, result) ==> exists j int :: 0 <= j && j < len(names) && has(registeredGenerators, names[j]) && registeredGenerators[names[j]] == g
+//@   ensures len(names) > 0 ==> forall j int :: 0 <= j && j < len(names) && has(registeredGenerators, names[j]) ==> elem(registeredGenerators[names[j]], result)
+//@   ensures len(names) == 0 ==> len(result) == len(registeredGenerators) && (forall n string :: has(registeredGenerators, n) ==> elem(registeredGenerators[n], result))
+//@   loop 1 invariant len(generators) == it1 && (forall j int :: 0 <= j && j < it1 ==> generators[j] == registeredGenerators[ks1[j]])
+//@   loop 2 invariant forall g Generator :: elem(g, generators) ==> exists j int :: 0 <= j && j < it2 && has(registeredGenerators, names[j]) && registeredGenerators[names[j]] == g
+//@   loop 2 invariant forall j int :: 0 <= j && j < it2 && has(registeredGenerators, names[j]) ==> elem(registeredGenerators[names[j]], generators)
+//@   note asked by name: exactly the registered generators among the names (unknown names are skipped); asked for all: every registered generator exactly once. The ORDER of the all-generators answer is map order - harmless by C05 (generators do not see each other: one file, one instance, one import table per generator and package), stated here rather than hidden
+
 //@ func NewContext
 //@   props C08 C04 C05 C02
 //@   requires args != nil
@@ -429,6 +449,34 @@ func spec_itoa(n int) string { return strconv.Itoa(n) }
 
 func spec_isCtx(e Executor) bool     { _, ok := e.(*gengoCtx); return ok }
 func spec_ctxOf(e Executor) *gengoCtx { c, _ := e.(*gengoCtx); return c }
+
+//@ func SnippetWriter.Render
+//@   calllog 4
+//@   preserves pkg/gengo/snippet. pkg/gengo. pkg/types.Universe. go/ast. go/token. golang.org/x/tools/go/packages. except pkg/gengo.gengoCtx.defers, pkg/gengo.gengoCtx.ignore
+//@   note interface method (implemented by *snippetWriter, whose Render is verified against C01/C09): a call is recorded in the ghost call log (kind spec_Rendered, the writer, the snippet); ASSUMED for other implementations: rendering does not rewire the framework's own objects
+
+//@ func gengoCtx.Render
+//@   props C01 C09
+//@   requires c != nil && c.genfile != nil && c.genfile.SnippetWriter != nil
+//@   ensures len(spec_calls()) == len(old(spec_calls()))+1
+//@   ensures spec_calls()[len(spec_calls())-1].Kind == spec_Rendered
+//@   ensures spec_calls()[len(spec_calls())-1].Gen == old(c.genfile.SnippetWriter)
+//@   ensures spec_calls()[len(spec_calls())-1].Obj == snippet
+//@   ensures forall j int :: 0 <= j && j < len(old(spec_calls())) ==> spec_calls()[j] == old(spec_calls())[j]
+//@   note whatever a generator renders through its context is handed - as given, exactly once - to the writer of the file of THIS generator and package
+
+//@ func gengoCtx.RenderT
+//@   props C01 C09
+//@   requires c != nil && c.genfile != nil && c.genfile.SnippetWriter != nil
+//@   ensures len(spec_calls()) == len(old(spec_calls()))+1 && spec_calls()[len(spec_calls())-1].Kind == spec_Rendered && spec_calls()[len(spec_calls())-1].Gen == old(c.genfile.SnippetWriter)
+//@   ensures snippet.Spec_templateFormat(spec_calls()[len(spec_calls())-1].Obj.(snippet.Snippet)) == template
+//@   note the template text reaches the writer as given (no trimming, no re-formatting before T())
+
+//@ func gengoCtx.Writer
+//@   props C01 C05
+//@   pure
+//@   requires c != nil
+//@   ensures result == c.genfile
 
 //@ func gengoCtx.Defer
 //@   props C06 C02 C05
@@ -725,6 +773,7 @@ const (
 	spec_GenType  = 1
 	spec_GenAlias = 2
 	spec_Deferred = 3
+	spec_Rendered = 4 // SnippetWriter.Render: a snippet handed to a file's writer (Gen: the writer, Obj: the snippet)
 )
 
 // spec_callMark(): len(spec_fx()) at the moment user code was most recently invoked (ghost): relates the two logs in time.
